@@ -295,3 +295,19 @@ def fill_perms(program, nA, rng):
         else:
             out.append(list(op))
     return out
+
+
+def set_state(state, s, acc, counts_outer_first):
+    """Rebuild a (wrapped) state with base (s, acc) and the given TimeLimit counters."""
+    counts = list(counts_outer_first)
+
+    def rec(st):
+        if hasattr(st, "env_state"):
+            if hasattr(st, "step_count"):
+                c = counts.pop(0)
+                st = eqx.tree_at(lambda x: x.step_count, st, jnp.asarray(c, dtype=st.step_count.dtype))
+            inner = rec(st.env_state)
+            return eqx.tree_at(lambda x: x.env_state, st, inner)
+        return mdp.MDPState(jnp.asarray(s, dtype=st.s.dtype), jnp.asarray(acc, dtype=st.acc.dtype))
+
+    return rec(state)
